@@ -1158,3 +1158,6 @@ func (s *Store) LogInjected(c Caller, verb string, gvk schema.GroupVersionKind, 
 func (e *LogEntry) IsWrite() bool {
 	return e.Injected == "" && !e.DryRun
 }
+
+// StateAt returns (without copying) the object as it was when the log had seq entries.
+func (s *Store) StateAt(seq int, k ObjKey) map[string]any { return s.at(seq, k) }
